@@ -457,3 +457,15 @@ Proof.
     exists (r2 ++ r1). rewrite app_assoc, <- Hr2. exact Hr1.
   - inversion H; subst d. exists s. reflexivity.
 Qed.
+
+(* a bare name: its name is itself and its parent is the empty path *)
+Lemma bare_name : forall n, sep_free n = true -> get_path_name n = n /\ get_parent n = Some [].
+Proof.
+  intros n Hn.
+  assert (F : forall bound, find_last_of n bound = None).
+  { intros bound. unfold find_last_of. apply lsu_sep_free. exact Hn. }
+  split.
+  - unfold get_path_name. rewrite !F.
+    destruct (size_minus n 1); reflexivity.
+  - unfold get_parent. rewrite F. reflexivity.
+Qed.
